@@ -270,15 +270,50 @@ class C03(Property):
         return fails
 
     def classify(self, case, failure):
-        # KF-C03-a: a pruning JoinedString one of whose members has the text ''
-        import flatland
+        """KF-C03-a predicts: the re-imported element equals the first one everywhere except at pruning
+        JoinedStrings holding a member with the text '', and there it holds what set() makes of the exported
+        joined value.  Any other difference (or an exception) is not that finding."""
+        if failure.get("clause") not in ("value-equal", "u-equal", "eq", "flatten-equal"):
+            return None
         cls, el, flag, x = self._first(case)
         if el is None:
             return None
-        for e, s in fl.walk_elements(el, case["schema"]):
-            if s["t"] == "joined" and e.prune_empty and any(m.u == "" for m in list.__iter__(e)):
-                return "KF-C03-a"
-        return None
+        el2 = cls()
+        try:
+            el2.set(el.value)
+        except Exception:
+            return None
+        def visible(root):
+            # a JoinedString is compared as a whole: leave out everything below one
+            out = []
+            for e, s in fl.walk_elements(root, case["schema"]):
+                if not any(getattr(p, "children_flattenable", True) is False and isinstance(p, list) for p in e.parents):
+                    out.append((e, s))
+            return out
+        a, b = visible(el), visible(el2)
+        if len(a) != len(b):
+            return None
+        offending = 0
+        skip_below = []
+        for (e, s), (e2, s2) in zip(a, b):
+            if s is not s2:
+                return None
+            if s["t"] == "joined":
+                if e.prune_empty and any(m.u == "" for m in list.__iter__(e)):
+                    probe = type(e)()
+                    probe.set(e.value)
+                    if e2.u != probe.u or [m.u for m in list.__iter__(e2)] != [m.u for m in list.__iter__(probe)]:
+                        return None
+                    offending += 1
+                    skip_below.append(e)
+                    continue
+                if e.u != e2.u:
+                    return None
+                skip_below.append(e)
+            elif s["t"] == "leaf":
+                if e.u != e2.u or encode_py(e.value) != encode_py(e2.value):
+                    return None
+        return "KF-C03-a" if offending else None
 
     def nontrivial(self, case, obs):
         f = obs.get("first") or {}
